@@ -502,6 +502,14 @@ func (r *run) doCall(x *ssa.Call, get func(ssa.Value) Val, st *State, depth int)
 		return res, false
 	}
 	if bi, ok := cc.Value.(*ssa.Builtin); ok {
+		if bi.Name() == "len" && len(args) == 1 {
+			switch a := args[0].(type) {
+			case Ptr:
+				return Tok{"len:" + a.Path}, false
+			case Tok:
+				return Tok{"len:" + a.Name}, false
+			}
+		}
 		return Unknown{"builtin " + bi.Name()}, false
 	}
 	if fn := cc.StaticCallee(); fn != nil {
@@ -573,7 +581,24 @@ func binop(op token.Token, a, b Val) Val {
 			return Bool(eq)
 		}
 	}
+	// arithmetic on symbolic operands yields a symbolic term: equal terms are equal values
+	switch op {
+	case token.ADD, token.SUB, token.MUL:
+		if symbolic(a) && symbolic(b) {
+			return Tok{"(" + a.String() + op.String() + b.String() + ")"}
+		}
+	}
 	return Unknown{"binop " + op.String()}
+}
+
+func symbolic(v Val) bool {
+	switch x := v.(type) {
+	case Tok:
+		return true
+	case Const:
+		return x.V != nil
+	}
+	return false
 }
 
 func sameVal(a, b Val) (eq, known bool) {
